@@ -61,3 +61,7 @@ MUTANTS = [
 """, twin=True),
     m("c04-twin-update-order", None, SO, QN_TAIL, QN_TAIL.replace("            mu += delta_mu\n            state.pos -= delta_pos\n", "            state.pos -= delta_pos\n            mu += delta_mu\n"), twin=True),
 ]
+
+MUTANTS += [
+    m("c04-inner-product-no-transpose", "R5", S, "            return matrices.DensePositiveDefiniteMatrix(\n                jacob_constr_1 @ (inner_product_matrix @ jacob_constr_1.T),\n            )\n        return matrices.DenseSquareMatrix(\n            jacob_constr_1 @ (inner_product_matrix @ jacob_constr_2.T),", "            return matrices.DensePositiveDefiniteMatrix(\n                jacob_constr_1 @ (inner_product_matrix @ jacob_constr_1.T),\n            )\n        return matrices.DenseSquareMatrix(\n            jacob_constr_2 @ (inner_product_matrix @ jacob_constr_1.T),"),
+]
